@@ -22,7 +22,7 @@ for d in $(ls -d seeded/S* | sort -V); do
 	el=$(( $(date +%s) - start ))
 	keys=$(grep -A1 '^VIOLATION' "$T/log" | grep -v '^VIOLATION' | grep -v '^--' | sed 's/^ *//; s/ — .*//' | cut -c1-110 | tr '\n' ';')
 	mins=$(grep '^minimise:' "$T/log" | sed 's/.*tests=/tests=/' | tr '\n' ';')
-	want=$(python3 -c "import json;print(1 if json.load(open('$d/meta.json')).get('detected',True) else 0)" 2>/dev/null || echo 1)
+	want=$(python3 -c "import json;print(1 if (lambda m: m.get('detected_$TIER', m.get('detected',True)))(json.load(open('$d/meta.json'))) else 0)" 2>/dev/null || echo 1)
 	note=""; [ "$want" = 0 ] && note=" (documented limit: expected exit 0)"
 	echo "$id exit=$rc want=$want ${el}s$note | $keys | $mins"
 done
